@@ -136,8 +136,10 @@ Definition set_add (c : nat) (l : list nat) : list nat := if memb c l then l els
 Definition set_del (c : nat) (l : list nat) : list nat := filter (fun x => negb (Nat.eqb x c)) l.
 
 (* newProcess creates the context (with parentCtx) whether or not the id is
-   free; Registry.add keeps the incumbent; children.Set is unconditional *)
-Definition bstep (s : bstate) (o : bop) : bstate :=
+   free; Registry.insert keeps the incumbent; the child is recorded in the
+   caller's map only when it was inserted (repair D21; [adopt] = true is the
+   code before it, where children.Set was unconditional) *)
+Definition bstep_gen (adopt : bool) (s : bstate) (o : bop) : bstate :=
   match o with
   | BSpawnTop i =>
       let n := b_next s in
@@ -152,7 +154,11 @@ Definition bstep (s : bstate) (o : bop) : bstate :=
         {| b_next := S n;
            b_reg := match b_reg s c with Some _ => b_reg s | None => upd (b_reg s) c (Some n) end;
            b_pid := upd (b_pid s) n c; b_par := upd (b_par s) n (Some pc);
-           b_kids := upd (upd (b_kids s) n []) pc (set_add c (b_kids s pc)) |}
+           b_kids := match b_reg s c with
+                     | Some _ => if adopt then upd (upd (b_kids s) n []) pc (set_add c (b_kids s pc))
+                                 else upd (b_kids s) n []
+                     | None => upd (upd (b_kids s) n []) pc (set_add c (b_kids s pc))
+                     end |}
       end
   | BStopped c =>
       match b_reg s c with
@@ -165,7 +171,9 @@ Definition bstep (s : bstate) (o : bop) : bstate :=
       end
   end.
 
+Definition bstep := bstep_gen false.
 Definition brun (h : list bop) : bstate := fold_left bstep h b_init.
+Definition brun_pinned (h : list bop) : bstate := fold_left (bstep_gen true) h b_init.
 
 (* Context.Children() / Context.Parent() inside a Receive of the actor registered as p *)
 Definition children (s : bstate) (p : nat) : list nat :=
